@@ -232,7 +232,7 @@ def _bound_once(fn, name, expected):
     if len(stores) != 1 or len(tops) != 1:
         _fail(fn, '%s: `%s` is not bound exactly once by a top-level assignment' % (fn.name, name))
     got = ast.unparse(tops[0].value)
-    if got != expected:
+    if got not in ((expected,) if isinstance(expected, str) else expected):
         _fail(tops[0], '%s: `%s = %s`, expected `%s`' % (fn.name, name, got, expected))
     return tops[0]
 
@@ -243,7 +243,9 @@ def parse_norm(fns):
     if [a.arg for a in pl.args.args] != ['lam'] or pl.args.vararg or pl.args.kwarg or pl.args.kwonlyargs:
         _fail(pl, 'signature of _parse_lambda')
     _bound_once(pl, 'def_line', 'lam.__code__.co_firstlineno')
-    _bound_once(pl, 'lines', 'linecache.getlines(f, mod.__dict__)')
+    # the module globals only select a loader for files that are not on disk; the text of the file is the same
+    _bound_once(pl, 'lines', ('linecache.getlines(f, mod.__dict__)',
+                              'linecache.getlines(f, mod.__dict__ if mod is not None else None)'))
     _bound_once(pl, 'f', 'inspect.getsourcefile(lam)')
     _bound_once(pl, 'mod', 'inspect.getmodule(lam)')
     _bound_once(pl, 'source', "''.join(lines)")
